@@ -61,6 +61,16 @@ CHECKS = {
          "model's prediction, successful outputs must pass the C08 container check, and diagnostic-only options must give byte-identical fonts."),
    note=TB + "The scenario->flag mapping is by construction of inputs. Kernel behaviour is observed, not modelled. An unwritable error file is itself an error (106) while the font stays: excluded by hypothesis from failure_leaves_no_font.",
    design="4/C09", category="proof"),
+ "C18": dict(
+   technique="Lean 4 theorem on the line arithmetic of the token-stream filter (all preprocessed texts, all lines) + byte equality of decomposed vs flat spellings and located seeded errors on the real compiler and preprocessor",
+   text=("Proof: Grc.LM.filter_eq_origin — for every preprocessed text (any sequence of `#line N [\"file\"]` markers and text lines) and every line of it, the file and line reported by the model of "
+         "GrpTokenStreamFilter (offset := N - L - 1 at each marker) are those the markers denote (the line after a marker is line N of the last named file). Tie: each generated program is compiled in a "
+         "flat spelling and in a decomposition (include file, object-like and function-like macros with a continuation line, #if 0 / #ifdef regions, block comments ending on a statement's line, line "
+         "comments, blank lines): the fonts must be byte-identical; an undefined class is seeded at sampled (thorough: every) statement positions of the decomposition and the error file must cite the "
+         "file and line where it was written (on a mismatch the Lean model is applied to the real gdlpp output to tell whose arithmetic is off); gdlpp's exit status must be non-zero exactly when it "
+         "printed an error (7 cases incl. #error, stray #endif, unterminated #if/comment, missing include = warning)."),
+   note=TB + "Macro substitution itself is not modelled (covered by font byte equality only). Parser errors spanning two files (the 'previous marker' rule) are not exercised.",
+   design="4/C18"),
  "C19": dict(
    technique="Lean 4 model theorems (temporary file always removed, debug files only on request, destination untouched before checks) + strace/snapshot correspondence over all scenarios and path spellings",
    text=("Proof: Grc.MainSM.tmp_removed, debug_only_if_requested, no_output_before_checks, failure_leaves_no_font over the stage-machine model. Tie: every scenario (success, each failure stage, five spellings "
